@@ -222,7 +222,7 @@ PROPS = {
     "C07": {
         "nt_rule": "preferred",
         "level": "proof", "module": "Resolvo.Props.C07", "imports": ["Resolvo.MDet.CheckedProofs", "Resolvo.Abs.Preferred", "Resolvo.MDet.EncSound"],
-        "theorems": ["Resolvo.C07.clause_order_exact_model", "Resolvo.MDet.requires_clause_order", "Resolvo.C07.preferred_exact_accepted", "Resolvo.C07.preferred_exact_checked", "Resolvo.C07.never_tries_anything_else",
+        "theorems": ["Resolvo.C07.clause_order_exact_model", "Resolvo.C07.requirement_cache_exact", "Resolvo.MDet.requires_clause_order", "Resolvo.C07.preferred_exact_accepted", "Resolvo.C07.preferred_exact_checked", "Resolvo.C07.never_tries_anything_else",
                      "Resolvo.Abs.accepted_all_agree", "Resolvo.Abs.decision_agrees", "Resolvo.Abs.go_subset_sel",
                      "Resolvo.C07.firstChoice_favored", "Resolvo.C07.firstChoice_ranked", "Resolvo.C07.union_order"],
         "families": [("conflictfree", CF_Q), ("async-cf", {"quick": 6000, "thorough": 100000}), ("solve", SOLVE_Q)],
